@@ -14,6 +14,9 @@ Vocabulary
 *node*   a dict describing how to build a transform (see `build_composition`)
            {"t": "leaf", "recipe": name, "params": {...}, "via": "ctor"|"dict"}
            {"t": "compose", "members": [node...], "implicit": bool}   implicit: handed over as a bare list
+                      optional "edit": {"mode": "append"|"insert"|"replace"|"fill", "pos": i}: the public member list
+                      `transforms` is edited after construction (member i appended / inserted / swapped in afterwards; fill =
+                      a subclass that assigns self.transforms after super().__init__(transforms=[])); "members" is the final list
            {"t": "random_apply", "p": p, "child": node}
            {"t": "patchwise", "patch": k, "child": node}
            {"t": "scheduled", "child": node, "schedule": None|float, "active": None|{"rank","batch_size","updates"}}
@@ -956,6 +959,31 @@ class SemsegSequence:
         return x, semseg
 
 
+_FILLED = []
+
+
+def _filled_cls():
+    if not _FILLED:
+        import kappadata.transforms as kdt
+
+        class FilledComposeImpl(kdt.KDComposeTransform):
+            """a user-side pipeline class that fills its member list after calling the base constructor"""
+
+            def __init__(self, members):
+                super().__init__(transforms=[])
+                self.transforms = list(members)
+
+        FilledComposeImpl.__module__ = __name__
+        FilledComposeImpl.__qualname__ = "FilledComposeImpl"
+        globals()["FilledComposeImpl"] = FilledComposeImpl  # importable by name -> picklable
+        _FILLED.append(FilledComposeImpl)
+    return _FILLED[0]
+
+
+def FilledCompose(members):
+    return _filled_cls()(members)
+
+
 def build_composition(node):
     """node -> transform (real repository classes). Global numpy RNG is consumed by the constructors (by design of the
     library); the caller decides under which global seed this happens."""
@@ -972,11 +1000,30 @@ def build_composition(node):
         for m in node["members"]:
             if m["t"] == "leaf" and m.get("via") == "dict":
                 members.append(_leaf_as_dict(m))              # resolved by the library's factory
-            elif m["t"] == "compose" and m.get("implicit"):
+            elif m["t"] == "compose" and m.get("implicit") and not m.get("edit"):
                 members.append([build_composition(mm) for mm in m["members"]])  # bare list = implicit compose
             else:
                 members.append(build_composition(m))
-        return kdt.KDComposeTransform(members)
+        edit = node.get("edit")
+        if not edit:
+            return kdt.KDComposeTransform(members)
+        # the member list is a public attribute (same idiom as torchvision.transforms.Compose): edit it after construction
+        mode, pos = edit["mode"], edit.get("pos", 0)
+        if mode == "fill":
+            return FilledCompose([object_to_transform(m) for m in members])
+        late = build_composition(node["members"][pos])  # the member that arrives after construction, as an object
+        if mode == "append":
+            tr = kdt.KDComposeTransform(members[:-1])
+            tr.transforms.append(late)
+        elif mode == "insert":
+            tr = kdt.KDComposeTransform(members[:pos] + members[pos + 1:])
+            tr.transforms.insert(pos, late)
+        elif mode == "replace":
+            tr = kdt.KDComposeTransform(members)  # built with another instance of the same member, swapped afterwards
+            tr.transforms[pos] = late
+        else:
+            raise ValueError(mode)
+        return tr
     if t == "random_apply":
         return kdt.KDRandomApply(transform=build_composition(node["child"]), p=node["p"])
     if t == "patchwise":
@@ -1162,7 +1209,13 @@ def gen_composition(rng, T, depth, flags=None, top=True):
             if cur.get("multi") and out1["kind"] != "semseg_stack":
                 out1 = dict(out1, multi=cur["multi"])
             cur = out1
-        return {"t": "compose", "members": members, "in": Ts}, cur
+        node = {"t": "compose", "members": members, "in": Ts}
+        if members and rng.random() < 0.3:
+            mode = rng.choice(["append", "insert", "replace", "fill"])
+            sto = [i for i, m in enumerate(members) if has_stochastic_leaf(m)]
+            pos = len(members) - 1 if mode == "append" else (rng.choice(sto) if sto and rng.random() < 0.8 else rng.randrange(len(members)))
+            node["edit"] = {"mode": mode, "pos": pos}
+        return node, cur
 
     if kind == "random_apply":
         f = dict(flags, preserve=True, no_multi=True, known_size=True)
